@@ -98,7 +98,7 @@ theorem natives_linked_in_source :
 
 /-- the call-path constants found in the source are the expected ones. -/
 theorem call_path_constants :
-    Interops.loadTokenReq = 5 ∧ Interops.safeDropMask = 10 ∧ Interops.childIsAnd = true ∧
+    Interops.loadTokenReq = 5 ∧ Params.real.safeDrop = ofNat 10 ∧ Params.real.safeDropToken = ofNat 10 ∧ Interops.childIsAnd = true ∧
     Interops.callFromNativeFlags = 15 ∧ Interops.loadScriptMask = 5 ∧ Interops.safeDefMask = 10 ∧
     NativeMethods.legacyDeployMask = 11 ∧ Interops.hardforks.length = 9 := by decide
 
@@ -128,7 +128,7 @@ example :
     let A : Target := ⟨1, ⟨[], [⟨.wildcard, Option.none⟩]⟩, "m", false⟩
     let sc : Prim := ⟨ofNat 5, c⟩
     ((run Params.real (State.init ⟨all, Option.none, false⟩)
-      [.call sc (ofNat 7) A, .call sc (ofNat 5) A]).stack.map (·.flags.toNat)) = [5, 7, 15] := by decide
+      [.call sc false (ofNat 7) A, .call sc true (ofNat 5) A]).stack.map (·.flags.toNat)) = [5, 7, 15] := by decide
 
 /-- `no_effect_without_flag`: if the required flags of the program's primitives cover their effect of kind `k`
 (this is what `table_guards` establishes for the node's tables), then an effect of kind `k` only ever happens
@@ -160,9 +160,10 @@ theorem no_effect_when_entry_lacks_flag (P : Params) (k : EffKind) (f : Frame) (
   rw [hf] at this; cases this
 
 /-- `safe_never_modifies`: once a method marked safe has been entered — whatever flags the caller requested —
-nothing below it writes storage or emits a notification (primitives guarded as by `table_guards`; the
-constant dropped for safe methods contains WriteStates and AllowNotify). -/
-theorem safe_never_modifies (P : Params) (hP : P.safeDrop.write = true ∧ P.safeDrop.notify = true)
+nothing below it writes storage or emits a notification (primitives guarded as by `table_guards`; on BOTH call
+paths, System.Contract.Call and CALLT through a NEF method token, the constant dropped for safe methods
+contains WriteStates and AllowNotify: `Params.SafeDrops`). -/
+theorem safe_never_modifies (P : Params) (hP : P.SafeDrops)
     (f : Frame) (hf : f.viaSafe = false) (prog : List Instr)
     (hgw : ∀ i ∈ prog, i.guardedK .write) (hgn : ∀ i ∈ prog, i.guardedK .notify) :
     ∀ ev ∈ (run P (State.init f) prog).events, (∃ g ∈ ev.stack, g.viaSafe = true) → ev.kind = .call := by
@@ -272,7 +273,7 @@ theorem real_no_call_without_flag_partial (f : Frame) (prog : List Instr)
 theorem real_safe_never_modifies (hf : Nat) (hhf : hf ∈ [5, 6, 7, 8]) (f : Frame) (hf0 : f.viaSafe = false)
     (prog : List Instr) (hp : RealProg hf prog) :
     ∀ ev ∈ (run Params.real (State.init f) prog).events, (∃ g ∈ ev.stack, g.viaSafe = true) → ev.kind = .call :=
-  safe_never_modifies Params.real (by decide) f hf0 prog
+  safe_never_modifies Params.real (by unfold Params.SafeDrops; decide) f hf0 prog
     (fun i hi p hpi => realPrims_guard_write hf (by
       simp only [List.mem_cons, List.not_mem_nil, or_false] at hhf
       rcases hhf with rfl | rfl | rfl | rfl <;> decide) p (hp i hi p hpi))
@@ -286,7 +287,7 @@ example :
     (syscallPrim "System.Storage.Put").bind (fun put =>
     (syscallPrim "System.Runtime.Notify").map (fun ntf =>
       ((run Params.real (State.init ⟨all, Option.none, false⟩)
-        [.call sc all A, .prim put, .prim ntf, .ret]).events.map (·.kind))))) = some [.notify, .write, .call] := by
+        [.call sc false all A, .prim put, .prim ntf, .ret]).events.map (·.kind))))) = some [.notify, .write, .call] := by
   decide
 -- … and the same program entered through a safe method faults at the Put, before any write:
 example :
@@ -294,16 +295,23 @@ example :
     (syscallPrim "System.Contract.Call").bind (fun sc =>
     (syscallPrim "System.Storage.Put").bind (fun put =>
     (syscallPrim "System.Runtime.Notify").map (fun ntf =>
-      let s := run Params.real (State.init ⟨all, Option.none, false⟩) [.call sc all A, .prim put, .prim ntf, .ret]
+      let s := run Params.real (State.init ⟨all, Option.none, false⟩) [.call sc false all A, .prim put, .prim ntf, .ret]
       (s.events.map (·.kind), s.halted)))) = some ([.call], true) := by
+  decide
+-- … also when it is entered with CALLT through a method token whose flags are All:
+example :
+    let A : Target := ⟨1, ⟨[], []⟩, "m", true⟩
+    (syscallPrim "System.Storage.Put").map (fun put =>
+      let s := run Params.real (State.init ⟨all, Option.none, false⟩) [.call callTPrim true all A, .prim put]
+      (s.stack.map (·.flags.toNat), s.events.map (·.kind), s.halted)) = some ([5, 15], [.call], true) := by
   decide
 -- a deployed caller without a matching permission cannot call a non-safe method, but can call a safe one
 example :
     let caller : Frame := ⟨all, some ⟨[], [⟨.hash 2, Option.none⟩]⟩, false⟩
     let sc : Prim := ⟨ofNat 5, c⟩
-    ((run Params.real (State.init caller) [.call sc all ⟨1, ⟨[], []⟩, "m", false⟩]).halted,
-     (run Params.real (State.init caller) [.call sc all ⟨1, ⟨[], []⟩, "m", true⟩]).halted,
-     (run Params.real (State.init caller) [.call sc all ⟨2, ⟨[], []⟩, "m", false⟩]).halted) = (true, false, false) := by
+    ((run Params.real (State.init caller) [.call sc false all ⟨1, ⟨[], []⟩, "m", false⟩]).halted,
+     (run Params.real (State.init caller) [.call sc true all ⟨1, ⟨[], []⟩, "m", true⟩]).halted,
+     (run Params.real (State.init caller) [.call sc false all ⟨2, ⟨[], []⟩, "m", false⟩]).halted) = (true, false, false) := by
   decide
 
 end NeoModel.Flags
